@@ -19,6 +19,7 @@ import (
 	"time"
 
 	"github.com/lightninglabs/neutrino/internal/verifdetrt"
+	"github.com/lightninglabs/neutrino/internal/verifldep"
 )
 
 // Outcome describes how the bubble ended.
@@ -85,6 +86,8 @@ func Run(t *testing.T, body func()) (out Outcome) {
 		runtime.GC()
 	}
 	verifdetrt.Reset()
+	verifldep.Reset()
+	defer verifldep.Off()
 	done := make(chan Outcome, 1)
 	go func() {
 		var o Outcome
@@ -270,4 +273,14 @@ func (b *Burst) Off() {
 		verifdetrt.SetSelect(0)
 		b.handle, b.selHandle = -1, -1
 	}
+}
+
+// LockOrder returns the first lock-order inversion recorded in this execution
+// (packages built with the verifldep rewrite only), as a signature and a
+// description, or "", "".
+func LockOrder() (sig, detail string) {
+	if v := verifldep.Violation(); v != nil {
+		return v.Sig, v.Detail
+	}
+	return "", ""
 }
